@@ -305,12 +305,29 @@ Fixpoint snipn (k : nat) (m : str) : str :=
   match k with O => m | S k' => snipn k' (snip m) end.
 Definition snipk (name m : str) : str := snipn (Nat.max 1 (count_slash name)) m.
 
-(* rBOILS_BEGIN: skip to the first digit, atoi *)
+(* skip to the first digit, atoi *)
 Fixpoint first_number (m : str) : Z :=
   match m with
   | [] => 0
   | c :: t => if isdigit c then atoi_acc 0 m else first_number t
   end.
+
+(* rBOILS_BEGIN after the commit "fix: array ports took their index from the
+   first digit of the address, not from the '#' position": as many characters
+   of the message are skipped as the name has in front of its first '#'
+   (stopping at the end of the message), then on to the first digit, atoi.
+   rRecurCb (a name without '#') takes no index: 0. *)
+Fixpoint skip_to_hash (name msg : str) : option str :=
+  match name with
+  | [] => None
+  | c :: t => if c =? 35 then Some msg
+              else match msg with
+                   | [] => skip_to_hash t []
+                   | _ :: mt => skip_to_hash t mt
+                   end
+  end.
+Definition port_index (name msg : str) : Z :=
+  match skip_to_hash name msg with Some mm => first_number mm | None => 0 end.
 
 (* the object a parent hands down (the harness's stand-in for &obj->name[idx]) *)
 Definition child_obj (o tid idx n : Z) : Z := o * 131 + tid * 17 + idx * 7 + n + 1.
@@ -331,7 +348,7 @@ Fixpoint dispatch_f (fuel : nat) (t : tree) (m args : str) (base : bool) (st : d
         match nth_error (subs_of t) (Z.to_nat i) with
         | Some (Some sub) =>
             let name := match nth_error (t_ports T) (Z.to_nat i) with Some (n, _) => n | None => [] end in
-            let n := if mem 35 name then first_number msg else 0 in
+            let n := port_index name msg in
             dispatch_f f sub (snipk name msg) args false (set_obj d1 (child_obj (obj d1) (t_id T) i n))
         | _ => d1
         end in
